@@ -110,6 +110,19 @@ CLAIMED = {
         "Trusted: TLC, Apalache (IdbAlloc only), the text-format writer in vf/checks/_idbm.py, harness/idbm_tool.cxx "
         "(built with -fno-access-control to read raw state).",
         "DESIGN.md §C13"),
+    "C08": (
+        "TLA+ spec MacroRef (Prosser's macro-replacement algorithm with hide sets, #, ##, __VA_ARGS__, __VA_OPT__, "
+        "GNU , ## __VA_ARGS__; actions Define/Undef/PushMacro/PopMacro/Text), TLC enumeration over seven program "
+        "families with the NoResidual invariant; every (program, text line) replayed through parse_file -E and "
+        "compared token by token; gcc -E validates the spec on every case; H-macro hook traces validated against "
+        "MacroTrace",
+        "TLC enumerates all macro programs of the families within the bound and carries the conforming expansion; on "
+        "the claimed domain (cases raising no finding-class event of the reference run) parse_file must produce "
+        "exactly that token sequence; finding classes are sampled one by one so crashes cannot mask other cases.",
+        "Trusted: TLC, gcc -E -P -x c++ -std=gnu++20 as the authority for every case (spec != gcc is exit 2), the "
+        "Python tokenizer of vf/checks/c08.py. Unspecified behaviour (invalid pastes, DR 268 rescanning, "
+        "unterminated invocations) is marked by the spec and dropped.",
+        "DESIGN.md §C08"),
 }
 
 NOT_APPLICABLE = {
